@@ -1,6 +1,6 @@
 (** C20 proofs: shortest unique prefixes computed from neighbours in per-segment sorted tables
     are unique, minimal and resolve back, whatever the segmentation. *)
-From Verif Require Import Base.Prelude Model.C20.
+From Verif Require Import Base.Prelude Base.DagI Model.C20.
 From Coq Require Import Lia Arith.
 Local Open Scope nat_scope.
 
@@ -1096,3 +1096,151 @@ Lemma checker_sound_thm :
   (forall k len names ids lower, refs_short_ok k len names ids lower = true ->
      refs_short_holds k len names ids lower).
 Proof. split; [exact short_ok_sound|]. split; [exact res_spec_sound|exact refs_short_ok_sound]. Qed.
+
+(** * the two-level index for change ids, and the visibility of targets *)
+Section TwoLevelChange.
+  Variable segs : list (@table (list nat)).
+  Hypothesis sorted : Forall sorted_tb segs.
+  Variable w : nat.
+  Hypothesis even_w : Nat.even w = true.
+  Hypothesis wpos : 1 <= w.
+  Hypothesis same_len : forall x, In x (all_keys segs) -> length x = w.
+  Variable Dc : list id.                  (* change ids of the disambiguation set, repetitions allowed *)
+  Hypothesis D_sub : forall x, In x Dc -> In x (all_keys segs).
+  Variable k : id.
+  Hypothesis k_in : In k (all_keys segs).
+
+  Definition positions_of (pfx : id) : list nat :=
+    flat_map (fun e => rev (snd e)) (matching_entries pfx segs).
+
+  Lemma change_resolve_unique pfx : length pfx <= w ->
+    (forall x, In x (all_keys segs) -> (matches pfx x = true <-> x = k)) ->
+    resolve_change pfx segs = SingleMatch (k, positions_of pfx).
+  Proof.
+    intros Lp Hkey.
+    assert (Hin : forall e, In e (matching_entries pfx segs) <->
+                  (exists tb, In tb segs /\ In e tb) /\ fst e = k).
+    { intros e. rewrite (matching_entries_in segs). split; intros [(tb & Htb & He) H2];
+        (split; [now exists tb|]);
+        (assert (Hk : In (fst e) (all_keys segs))
+           by (unfold all_keys; apply in_flat_map; exists tb; split; [assumption|now apply in_map]));
+        now apply (Hkey _ Hk). }
+    rewrite resolve_change_flat; [|assumption|now apply (long_keys_change segs w even_w same_len)].
+    assert (Hne : exists e, In e (matching_entries pfx segs)).
+    { pose proof k_in as K. unfold all_keys in K. apply in_flat_map in K. destruct K as (tb & Htb & Hk).
+      apply in_map_iff in Hk. destruct Hk as (e & E & He). exists e. apply Hin. split; [now exists tb|assumption]. }
+    unfold positions_of.
+    destruct (matching_entries pfx segs) as [|[k1 p1] r] eqn:M; [destruct Hne as (e & [])|].
+    simpl. assert (k1 = k) by (apply (Hin (k1, p1)); now left). subst k1.
+    assert (forallb (fun e => id_eqb (fst e) k) r = true) as ->.
+    { apply forallb_forall. intros e He. apply id_eqb_spec, (Hin e). now right. }
+    reflexivity.
+  Qed.
+
+  Lemma full_id_matches x : In x (all_keys segs) -> (matches k x = true <-> x = k).
+  Proof.
+    intros Hx. rewrite <- (firstn_all k) at 1. rewrite matches_common by lia. split.
+    - intros H. destruct (list_eq_dec Nat.eq_dec x k) as [E|N]; [assumption|exfalso].
+      pose proof (common_len_lt k x) as C. rewrite (same_len k k_in), (same_len x Hx) in C.
+      specialize (C eq_refl (fun E => N (eq_sym E))). rewrite (same_len k k_in) in H. lia.
+    - intros ->. rewrite common_len_self. lia.
+  Qed.
+
+  Theorem two_level_change_inside : In k Dc ->
+    let L := set_shortest k Dc in
+    resolve_change2 (Some Dc) (firstn L k) segs = SingleMatch (k, positions_of k) /\
+    forall l, 1 <= l -> l < L -> resolve_change2 (Some Dc) (firstn l k) segs = AmbiguousMatch.
+  Proof.
+    intros HkD L. pose proof (set_shortest_ge1 k Dc) as L1. fold L in L1.
+    destruct (set_shortest_spec k Dc) as [Hu Hm]. fold L in Hu, Hm.
+    assert (Lw : L <= w).
+    { destruct Hm as [Hm|(x & Hx & N & Hm)]; [lia|].
+      pose proof (common_len_lt k x) as C. rewrite (same_len k k_in), (same_len x (D_sub x Hx)) in C.
+      specialize (C eq_refl (fun H => N (eq_sym H))). lia. }
+    assert (F : forall l, 1 <= l -> l <= w -> firstn l k <> []).
+    { intros l H1 H2 E. apply (f_equal (@length nat)) in E. rewrite firstn_length, (same_len k k_in) in E.
+      simpl in E. lia. }
+    split.
+    - unfold resolve_change2. rewrite set_resolve_spec by (apply F; lia).
+      assert (E : forall x, In x Dc -> (matches (firstn L k) x = true <-> x = k)).
+      { intros x Hx. rewrite matches_common by (rewrite (same_len k k_in); lia). split.
+        - intros H. destruct (list_eq_dec Nat.eq_dec x k) as [E|N]; [assumption|].
+          pose proof (Hu x Hx N). lia.
+        - intros ->. rewrite common_len_self, (same_len k k_in). lia. }
+      assert (Hf : forall x, In x (filter (matches (firstn L k)) Dc) -> x = k).
+      { intros x Hx. apply filter_In in Hx. destruct Hx as [Hx Hm']. now apply E. }
+      assert (Hin : In k (filter (matches (firstn L k)) Dc)).
+      { apply filter_In. split; [assumption|]. now apply E. }
+      destruct (filter (matches (firstn L k)) Dc) as [|a r]; [contradiction|].
+      assert (a = k) by (apply Hf; now left). subst a.
+      assert (forallb (id_eqb k) r = true) as ->.
+      { apply forallb_forall. intros x Hx. apply id_eqb_spec. symmetry. apply Hf. now right. }
+      rewrite (change_resolve_unique k); [reflexivity|rewrite (same_len k k_in); lia|exact full_id_matches].
+    - intros l H1 Hl. unfold resolve_change2. rewrite set_resolve_spec by (apply F; lia).
+      destruct Hm as [Hm|(x & Hx & N & Hm)]; [lia|].
+      destruct (filter_two (matches (firstn l k)) Dc k x HkD Hx (fun H => N (eq_sym H)))
+        as (a & b & r & E).
+      + apply matches_common; [rewrite (same_len k k_in); lia|].
+        rewrite common_len_self, (same_len k k_in). lia.
+      + apply matches_common; [rewrite (same_len k k_in); lia|lia].
+      + rewrite E. destruct (forallb (id_eqb a) (b :: r)) eqn:Fa; [|reflexivity]. exfalso.
+        rewrite forallb_forall in Fa.
+        assert (Ik : In k (a :: b :: r)) by (rewrite <- E; apply filter_In; split; [assumption|];
+          apply matches_common; [rewrite (same_len k k_in); lia|rewrite common_len_self, (same_len k k_in); lia]).
+        assert (Ix : In x (a :: b :: r)) by (rewrite <- E; apply filter_In; split; [assumption|];
+          apply matches_common; [rewrite (same_len k k_in); lia|lia]).
+        assert (Eq : forall y, In y (a :: b :: r) -> y = a).
+        { intros y [<-|Hy]; [reflexivity|]. symmetry. apply id_eqb_spec. now apply Fa. }
+        rewrite (Eq k Ik), (Eq x Ix) in N. congruence.
+  Qed.
+
+  Theorem two_level_change_outside : ~ In k Dc -> 1 <= shortest_len k segs ->
+    resolve_change2 (Some Dc) (firstn (shortest_len k segs) k) segs =
+    resolve_change (firstn (shortest_len k segs) k) segs.
+  Proof.
+    intros HkD L1. pose proof (change_shortest_le_w segs sorted w same_len k k_in) as Lw.
+    unfold resolve_change2. rewrite set_resolve_spec.
+    - rewrite filter_none; [reflexivity|].
+      intros x Hx. destruct (matches (firstn (shortest_len k segs) k) x) eqn:E; [|reflexivity].
+      apply matches_common in E; [|rewrite (same_len k k_in); lia].
+      assert (x <> k) by (intros ->; contradiction).
+      pose proof (shortest_len_unique k segs sorted x (D_sub x Hx) H). lia.
+    - intros E. apply (f_equal (@length nat)) in E. rewrite firstn_length, (same_len k k_in) in E.
+      simpl in E. lia.
+  Qed.
+End TwoLevelChange.
+
+Lemma two_level_change_thm (segs : list (@table (list nat))) :
+  Forall sorted_tb segs -> forall w, Nat.even w = true -> 1 <= w ->
+  (forall x, In x (all_keys segs) -> length x = w) ->
+  forall Dc, (forall x, In x Dc -> In x (all_keys segs)) ->
+  forall k, In k (all_keys segs) ->
+  (In k Dc ->
+     shortest_change2 (Some Dc) k segs = set_shortest k Dc /\
+     resolve_change2 (Some Dc) (firstn (set_shortest k Dc) k) segs =
+       SingleMatch (k, positions_of segs k) /\
+     forall l, 1 <= l -> l < set_shortest k Dc ->
+       resolve_change2 (Some Dc) (firstn l k) segs = AmbiguousMatch) /\
+  (~ In k Dc -> 1 <= shortest_len k segs ->
+     shortest_change2 (Some Dc) k segs = shortest_len k segs /\
+     resolve_change2 (Some Dc) (firstn (shortest_len k segs) k) segs =
+       resolve_change (firstn (shortest_len k segs) k) segs).
+Proof.
+  intros sorted w even_w wpos same_len Dc Dsub k Hk. split.
+  - intros HkD.
+    assert (Hh : set_has k Dc = true).
+    { apply existsb_exists. exists k. split; [assumption|apply id_eqb_refl]. }
+    split; [unfold shortest_change2; now rewrite Hh|].
+    eapply two_level_change_inside with (w := w); eassumption.
+  - intros HkD L1.
+    assert (Hh : set_has k Dc = false).
+    { destruct (set_has k Dc) eqn:E; [|reflexivity]. apply existsb_exists in E.
+      destruct E as (x & Hx & E). apply id_eqb_spec in E. subst x. contradiction. }
+    split; [unfold shortest_change2; now rewrite Hh|].
+    eapply two_level_change_outside with (w := w); eassumption.
+Qed.
+
+(** a target is reported Visible iff it is an ancestor of one of the view's heads *)
+Lemma visible_thm (c : case) : wf (c_graph c) -> forall p,
+  visible_at c p = true <-> exists h, In h (c_heads c) /\ anc (c_graph c) p h.
+Proof. intros W p. unfold visible_at. now apply anc_any_spec. Qed.
